@@ -16,5 +16,5 @@ package harness
 //	C10.state-remains               all answered, all work returned, nothing can run: keys still tracked
 //	C10.fresh-call                  afterwards a fresh Call per key runs its own function, returns its result
 func init() {
-	Register(Harness{Prop: "C10", Name: "C10/mix", Run: func() { exclusiveRun("C10") }})
+	Register(Harness{Prop: "C10", Name: "C10/mix", Run: func() { exclusiveRun("C10") }, Weight: 3})
 }
